@@ -889,6 +889,37 @@ func c01Chokepoint(p *core.Program, r *core.Report, rule string) {
 		return
 	}
 	allowed := map[string]bool{"io.(*DataInputX).ReadBytes": true, "io.NewDataInputX": true, "io.NewDataInputNet": true, "io.(*DataInputX).Available": true}
+	// unexported methods of the stream that only ReadBytes (or another such helper) calls are part of
+	// ReadBytes: the one place is still the one place when it is split by input mode
+	if rb := p.Method("io", "DataInputX", "ReadBytes"); rb != nil {
+		part := map[*types.Func]bool{rb.Obj: true}
+		for round := 0; round < 3; round++ {
+			for _, cand := range p.MethodsOf(inT) {
+				if cand.Obj.Exported() || part[cand.Obj] || cand.Decl.Body == nil {
+					continue
+				}
+				callers, inside := 0, true
+				for _, fi := range p.Funcs {
+					if fi.Decl.Body == nil {
+						continue
+					}
+					ast.Inspect(fi.Decl.Body, func(n ast.Node) bool {
+						if call, ok := n.(*ast.CallExpr); ok && calleeFunc(fi.Pkg.TypesInfo, call) == cand.Obj {
+							callers++
+							if !part[fi.Obj] {
+								inside = false
+							}
+						}
+						return true
+					})
+				}
+				if callers > 0 && inside {
+					part[cand.Obj] = true
+					allowed[core.FuncName(cand.Obj)] = true
+				}
+			}
+		}
+	}
 	for _, fi := range p.Funcs {
 		if fi.Decl.Body == nil {
 			continue
